@@ -84,10 +84,28 @@ def incl_value(tag):
     return {'true': True, 'false': False, '0': 0, '1': 1}[tag]
 
 
+NTYPES = ('int', 'int64', 'int32', 'int16', 'uint8')     # integer carriers of region parameters (besides float)
+
+
+def carrier(ntype):
+    """exact-rational string -> the Python/numpy number the region is built from."""
+    if not ntype or ntype == 'float':
+        return fl
+    conv = int if ntype == 'int' else getattr(np, ntype)
+
+    def f(s):
+        q = Fraction(s)
+        assert q.denominator == 1, (s, ntype)
+        return conv(int(q))
+    return f
+
+
 def build_region(spec):
     import astropy.units as u
     from astropy.coordinates import SkyCoord
     import regions as R
+    nt = spec.get('ntype') or 'float'
+    cv = carrier(nt)
     meta = {}
     if spec['incl'] != 'absent':
         meta['include'] = incl_value(spec['incl'])
@@ -104,9 +122,12 @@ def build_region(spec):
         return R.RectangleSkyRegion(c, fl(spec['params'][0]) * u.arcsec, fl(spec['params'][1]) * u.arcsec,
                                     angle=fl(spec['angle']) * u.deg, meta=meta)
     if cls in ('polygon',):
-        return R.PolygonPixelRegion(R.PixCoord([fl(v) for v in spec['xs']], [fl(v) for v in spec['ys']]), meta=meta)
-    c = R.PixCoord(fl(spec['xs'][0]), fl(spec['ys'][0]))
-    p = [fl(v) for v in spec['params']]
+        xs, ys = [cv(v) for v in spec['xs']], [cv(v) for v in spec['ys']]
+        if nt not in ('float', 'int'):          # a numpy integer array, not a list of numpy scalars
+            xs, ys = np.array(xs, dtype=getattr(np, nt)), np.array(ys, dtype=getattr(np, nt))
+        return R.PolygonPixelRegion(R.PixCoord(xs, ys), meta=meta)
+    c = R.PixCoord(cv(spec['xs'][0]), cv(spec['ys'][0]))
+    p = [cv(v) for v in spec['params']]
     ang = None if spec.get('angle') is None else fl(spec['angle']) * u.Unit(spec.get('aunit') or 'deg')
     if cls == 'point':
         return R.PointPixelRegion(c, meta=meta)
@@ -129,7 +150,7 @@ def build_region(spec):
     if cls == 'text':
         return R.TextPixelRegion(c, 'label', meta=meta)
     if cls == 'compound':
-        comp = R.CirclePixelRegion(c, p[0]) | R.CirclePixelRegion(c, p[0] + 1.0)
+        comp = R.CirclePixelRegion(c, p[0]) | R.CirclePixelRegion(c, float(p[0]) + 1.0)
         comp.meta = meta
         return comp
     raise ValueError(cls)
@@ -375,6 +396,74 @@ def gen_region(rng, cls, sky=False):
     return s
 
 
+def intify(rng, s, ntype):
+    """give the region integer-typed parameters: exact small integers that every carrier can hold."""
+    if s['sky'] or s['cls'] not in REPRESENTABLE:
+        return s
+    s['ntype'] = ntype
+    lo = 0 if ntype == 'uint8' else -100
+    s['xs'] = [str(rng.randint(lo, 120)) for _ in s['xs']]
+    s['ys'] = [str(rng.randint(lo, 120)) for _ in s['ys']]
+    k = len(s['params'])
+    if s['cls'] == 'circleAnnulus':
+        a = rng.randint(1, 60)
+        s['params'] = [str(a), str(a + rng.randint(1, 60))]
+    elif s['cls'] == 'ellipseAnnulus':
+        a, b = rng.randint(1, 60), rng.randint(1, 60)
+        s['params'] = [str(a), str(a + rng.randint(1, 60)), str(b), str(b + rng.randint(1, 60))]
+    else:
+        s['params'] = [str(rng.randint(1, 120)) for _ in range(k)]
+    return s
+
+
+def fractional(rng, s):
+    """make sure centre and sizes of a float-typed region are NOT integers (k + odd/8)."""
+    def nz(v):
+        q = Fraction(v)
+        return frac(q if q.denominator != 1 else q + Fraction(rng.choice([1, 3, 5, 7]), 8))
+    s['xs'] = [nz(v) for v in s['xs']]
+    s['ys'] = [nz(v) for v in s['ys']]
+    if s['cls'] in ('circle', 'ellipse', 'rectangle'):
+        s['params'] = [nz(v) for v in s['params']]
+    return s
+
+
+def gen_carrier_list(rng):
+    """numeric carrier types: ONE list mixing integer-typed rows (Python int, numpy int64/int32/int16/uint8)
+    with fractional float rows; the widest X/Y cell (a polygon) and/or the widest R cell (an annulus, a
+    box/ellipse) is integer-typed and comes first / last / in the middle."""
+    narrow = [fractional(rng, gen_region(rng, rng.choice(['point', 'circle', 'ellipse', 'rectangle', 'circle', 'point'])))
+              for _ in range(rng.randint(1, 4))]
+    wide = []
+    what = rng.choice(['poly', 'poly', 'annulus', 'both', 'both', 'sizes'])
+    if what in ('poly', 'both'):
+        wide.append(intify(rng, gen_region(rng, 'polygon'), rng.choice(NTYPES)))
+    if what in ('annulus', 'both'):
+        wide.append(intify(rng, gen_region(rng, rng.choice(['circleAnnulus', 'ellipseAnnulus'])), rng.choice(NTYPES)))
+    if what == 'sizes':       # widest R cell = an int-typed ellipse / box, narrower R = a fractional circle
+        wide.append(intify(rng, gen_region(rng, rng.choice(['ellipse', 'rectangle'])), rng.choice(NTYPES)))
+        narrow = [fractional(rng, gen_region(rng, rng.choice(['circle', 'point', 'circle']))) for _ in range(rng.randint(1, 3))]
+    if rng.random() < 0.3:    # a second, float-typed polygon of the same or smaller length (never the first-widest)
+        pass
+    order = rng.choice(['first', 'last', 'middle'])
+    if order == 'first':
+        specs = wide + narrow
+    elif order == 'last':
+        specs = narrow + wide
+    else:
+        k = rng.randint(0, len(narrow))
+        specs = narrow[:k] + wide + narrow[k:]
+    if rng.random() < 0.4:
+        for s in specs:
+            if rng.random() < 0.5:
+                s['comp'] = rng.randint(1, 9)
+    if rng.random() < 0.3:
+        for s in specs:
+            if s['cls'] in ('point', 'circle', 'polygon'):
+                s['incl'] = rng.choice(['absent', 'false', '0'])
+    return {'kind': 'list', 'regions': specs}
+
+
 def gen_list(rng, n=None):
     n = n or rng.randint(1, 8)
     mode = rng.choice(['clean', 'clean', 'mixed', 'mixed', 'polyheavy', 'same'])
@@ -395,6 +484,13 @@ def gen_list(rng, n=None):
         else:
             cls = rng.choice(REPRESENTABLE)
         specs.append(gen_region(rng, cls))
+    # numeric carrier of the parameters: floats / some rows integer-typed / all rows integer-typed
+    nmode = rng.choice(['float', 'float', 'float', 'float', 'mixed', 'mixed', 'allint'])
+    if nmode != 'float':
+        one_nt = rng.choice(NTYPES)
+        for s in specs:
+            if nmode == 'allint' or rng.random() < 0.4:
+                intify(rng, s, one_nt if rng.random() < 0.5 else rng.choice(NTYPES))
     # angular units: all degrees / one other unit for the whole list / mixed within the list
     umode = rng.choice(['deg', 'deg', 'deg', 'one', 'mixed', 'mixed', 'mixed'])
     one = rng.choice(ANGLE_UNITS)
@@ -527,6 +623,10 @@ class Check(PropertyCheck):
             'ellipse annulus, rotated rectangle, polygon with 3..9 vertices, regular polygon) mixed so that X/Y/R need '
             'padding, plus ~10% unrepresentable ones (sky regions, line, text, rectangle annulus, compound); '
             'coordinates/sizes/angles: dyadic lattice, random doubles, integers, zeros, magnitudes 1e-8..1e8; '
+            'numeric carriers of centres/vertices/radii/widths/heights: float, Python int, numpy int64/int32/int16/uint8 '
+            '(exact small integers), all-float / all-int / mixed within ONE list, incl. lists whose widest X/Y cell '
+            '(an integer-typed polygon) or widest R cell (an integer-typed annulus/box/ellipse) comes first, last or in '
+            'the middle of rows with non-integral centres and sizes; '
             'rotation angles in deg/rad/arcmin/arcsec/hourangle: all degrees, one unit per list, or mixed within the list '
             '(first row with no angle / with another unit than the rest); '
             'include in {absent, True, False, 0, 1} (per-list modes), component in {absent, ints (duplicates allowed), '
@@ -627,6 +727,8 @@ class Check(PropertyCheck):
                 cases.append({'kind': 'list', 'regions': [s]})
         for _ in range(n_lists):
             cases.append(gen_list(rng))
+        for _ in range(250 if tier == 'quick' else 6000):
+            cases.append(gen_carrier_list(rng))
         for _ in range(n_tables):
             cases.append(gen_table(rng))
         for _ in range(n_bad):
@@ -1086,6 +1188,11 @@ class Check(PropertyCheck):
             tags.append('hourangle-first')
         if conv:
             tags.append('unitmix')
+        nts = {s.get('ntype') or 'float' for s in specs}
+        if len(nts) > 1:
+            tags.append('intmix')
+        elif nts and nts != {'float'}:
+            tags.append('allint')
         skipped = len(case['regions']) - len(specs)
         pad = 'padded' if len({s['cls'] for s in specs}) > 1 else 'uniform'
         return 'list/' + ('+'.join(tags) if tags else 'clean') + '/' + pad + ('/skips' if skipped else '')
